@@ -50,6 +50,19 @@ Definition md009 (c : c009) (ls : list str) (lvs : list leaf) : verdict :=
     (1 <=? k) && negb (match leaf_at lvs ln with Some l => is_code l | None => false end)
     && (strict9 c || negb (Nat.eqb k (br_spaces c)))) (lnums ls)).
 
+(* ---------------------------------------------------------------- MD010: hard tabs.  Every line with a tab; with code_blocks off the
+   lines of a code block are exempt (the fence lines of a fenced block are left open: a tab can only stand in the info string) *)
+Definition has_tab_c (s : str) : bool := existsb (N.eqb 9) s.
+Definition md010 (code_blocks : bool) (ls : list str) (lvs : list leaf) : verdict :=
+  let tabbed := filter (fun ln => has_tab_c (line_at ls ln)) (lnums ls) in
+  if code_blocks then only tabbed
+  else mkv (filter (fun ln => negb (match leaf_at lvs ln with Some l => is_code l | None => false end)) tabbed)
+           (filter (fun ln => match leaf_at lvs ln with
+                              | Some l => match lb l with
+                                          | BCode _ _ (CFence _ _ _ _ closed) => Nat.eqb ln (lsl l) || (closed && Nat.eqb ln (lel l))   (* the last line is a fence line only when the fence is closed *)
+                                          | _ => false end
+                              | None => false end) tabbed).
+
 (* ---------------------------------------------------------------- MD013: line length *)
 Record c013 := mk013 { line_length : nat; code_len : nat; head_len : nat; code_on : bool; head_on : bool; strict13 : bool }.
 Definition limit13 (c : c013) (lvs : list leaf) (ln : nat) : option nat :=
@@ -280,7 +293,9 @@ Definition md031 (ls : list str) (lvs : list leaf) : verdict :=
     match lb l with
     | BCode _ _ (CFence _ _ _ _ closed) =>
         let up := side l (lsl l - 1) (lsl l) in
-        let dn := if closed then side l (S (lel l)) (lel l) else ([], []) in
+        (* a fence that its container closes has no closing line: whether and where the missing blank line behind it is reported is not said *)
+        let dn := if closed then side l (S (lel l)) (lel l)
+                  else if (n <? S (lel l)) || is_blank (line_at ls (S (lel l))) then ([], []) else ([], [lel l; S (lel l)]) in
         (fst up ++ fst dn, snd up ++ snd dn)
     | _ => ([], [])
     end in
@@ -375,13 +390,18 @@ Definition run_rules (p : list nat) (punct : str) (hr : str) (pieces : list str)
   let g i := nth i p 0 in
   let b i := Nat.eqb (g i) 1 in
   let tail_in_code := match leaf_at lvs (length (lines_of_pieces pieces)) with
-                      | Some l => match lb l with BCode _ _ (CFence _ _ _ _ false) => true | _ => false end
+                      | Some l => match lb l with
+                                  | BCode _ _ (CFence _ _ _ _ false) =>
+                                      (* ... unless the fence stands in a block quote: the empty piece has no marker, the quote and the fence end before it *)
+                                      forallb (fun k => match k with KQuote => false | _ => true end) (lpath l)
+                                  | _ => false end
                       | None => false end in
   [ (0, only (flat_map (fun h => match h_src h with HSetext _ _ _ _ => [h_sl h; h_el h] | _ => [] end) (headings lvs)));
     (1, md001 lvs);
     (3, md003 (style3 (g 13)) lvs);
     (4, md004 (match g 16 with 1 => K4Fixed star | 2 => K4Fixed 43%N | 3 => K4Fixed dash | 4 => K4Sublist | _ => K4Consistent end) lsts);
     (9, md009 (mk009 (g 0) (b 1)) pieces lvs);
+    (10, md010 (b 18) pieces lvs);
     (12, md012 (g 8) pieces lvs tail_in_code (length (lines_of_pieces pieces)));
     (13, md013 (mk013 (g 2) (g 3) (g 4) (b 5) (b 6) (b 7)) pieces lvs);
     (18, md018 lvs);
